@@ -13,6 +13,51 @@ import os, re, shutil, sys, json
 VERIF = os.path.dirname(os.path.dirname(os.path.abspath(__file__)))
 REPO = os.environ.get("VERIF_REPO", "/repo")
 
+# `format!` / `println!` shadows: positional `{}` / `{: <N}` calls can be rendered by the structured model
+# (verif_models::fmtm, selected per harness); everything else, and every harness that does not select it,
+# goes through the real core::fmt.
+FORMAT_SHADOW = """#[cfg(kani)]
+macro_rules! format {
+    ($fmt:literal $(, $arg:expr)* $(,)?) => { format!(@b $fmt; []; [__a0 __a1 __a2 __a3 __a4 __a5 __a6 __a7 __a8 __a9 __a10 __a11]; $($arg,)*) };
+    (@b $fmt:literal; [$(($id:ident $e:expr))*]; [$($rest:ident)*]; ) => {
+        // every argument is evaluated exactly once (like format_args!) and bound by reference
+        match ($(&$e,)*) { ($($id,)*) => {
+            if crate::verif_models::fmtm::use_structured($fmt) {
+                #[allow(unused_imports)] use crate::verif_models::fmtm::{S1 as _, S2 as _, S3 as _};
+                let mut __o = crate::verif_models::fmtm::Out::new($fmt);
+                $( __o.lit(); (&&crate::verif_models::fmtm::W($id)).vshow(&mut __o); __o.pad(); )*
+                crate::verif_models::fmtm::cross_check(__o.finish(), format_args!($fmt $(, $id)*))
+            } else {
+                crate::verif_models::fmtm::format(format_args!($fmt $(, $id)*))
+            }
+        } }
+    };
+    (@b $fmt:literal; [$(($id:ident $e:expr))*]; []; $($more:expr,)+) => { crate::verif_models::fmtm::format(format_args!($fmt $(, $e)* $(, $more)*)) };
+    (@b $fmt:literal; [$($done:tt)*]; [$next:ident $($rest:ident)*]; $a:expr, $($more:expr,)*) => { format!(@b $fmt; [$($done)* ($next $a)]; [$($rest)*]; $($more,)*) };
+    ($($t:tt)*) => { crate::verif_models::fmtm::format(format_args!($($t)*)) };
+}
+"""
+PRINTLN_SHADOW = """#[cfg(kani)]
+macro_rules! println {
+    ($fmt:literal $(, $arg:expr)* $(,)?) => { println!(@b $fmt; []; [__a0 __a1 __a2 __a3 __a4 __a5 __a6 __a7 __a8 __a9 __a10 __a11]; $($arg,)*) };
+    (@b $fmt:literal; [$(($id:ident $e:expr))*]; [$($rest:ident)*]; ) => {
+        match ($(&$e,)*) { ($($id,)*) => {
+            if crate::verif_models::fmtm::use_structured($fmt) {
+                #[allow(unused_imports)] use crate::verif_models::fmtm::{S1 as _, S2 as _, S3 as _};
+                let mut __o = crate::verif_models::fmtm::Out::new($fmt);
+                $( __o.lit(); (&&crate::verif_models::fmtm::W($id)).vshow(&mut __o); __o.pad(); )*
+                crate::verif_models::fmtm::println_structured(crate::verif_models::fmtm::cross_check(__o.finish(), format_args!($fmt $(, $id)*)))
+            } else {
+                crate::verif_models::fmtm::println(format_args!($fmt $(, $id)*))
+            }
+        } }
+    };
+    (@b $fmt:literal; [$(($id:ident $e:expr))*]; []; $($more:expr,)+) => { crate::verif_models::fmtm::println(format_args!($fmt $(, $e)* $(, $more)*)) };
+    (@b $fmt:literal; [$($done:tt)*]; [$next:ident $($rest:ident)*]; $a:expr, $($more:expr,)*) => { println!(@b $fmt; [$($done)* ($next $a)]; [$($rest)*]; $($more,)*) };
+    ($($t:tt)*) => { crate::verif_models::fmtm::println(format_args!($($t)*)) };
+}
+"""
+
 class OverlayError(Exception):
     pass
 
@@ -199,16 +244,16 @@ def build(dest, prop_id=None, files=None):
         p = os.path.join(dest, rel)
         if os.path.exists(p):
             s = open(p).read()
-            s = "#[cfg(kani)]\nmacro_rules! format { ($($t:tt)*) => { crate::verif_models::fmtm::format(format_args!($($t)*)) } }\n" + s
+            s = FORMAT_SHADOW + s
             open(p, "w").write(s)
-            info["rewrites"].append(f"{rel}: cfg(kani) `format!` routed through verif_models::fmtm::format (real formatting unless a harness selects constant rows)")
+            info["rewrites"].append(f"{rel}: cfg(kani) `format!` routed through verif_models::fmtm (real core::fmt unless a harness selects constant rows or the structured format model)")
 
     p = os.path.join(dest, "src/callbacks/opreturn.rs")
     if os.path.exists(p):
         s = open(p).read()
-        s = "#[cfg(kani)]\nmacro_rules! println { ($($t:tt)*) => { crate::verif_models::fmtm::println(format_args!($($t)*)) } }\n" + s
+        s = PRINTLN_SHADOW + s
         open(p, "w").write(s)
-        info["rewrites"].append("src/callbacks/opreturn.rs: cfg(kani) `println!` routed to verif_models::fmtm::println (real core::fmt formatting into a ghost buffer)")
+        info["rewrites"].append("src/callbacks/opreturn.rs: cfg(kani) `println!` routed to verif_models::fmtm (ghost line buffer; real core::fmt unless a harness selects the structured format model)")
 
     # models module
     shutil.copy(os.path.join(VERIF, "models", "verif_models.rs"), os.path.join(dest, "src", "verif_models.rs"))
